@@ -170,10 +170,11 @@ type sink struct {
 }
 
 type facadeInfo struct {
-	fd       *ast.FuncDecl
-	calls    []string
-	escapes  bool
-	setsFlag bool
+	fd             *ast.FuncDecl
+	calls          []string
+	escapes        bool
+	returnsWrapper bool
+	setsFlag       bool
 }
 
 func analyseFacade() []apiRow {
@@ -203,6 +204,7 @@ func analyseFacade() []apiRow {
 			return true
 		})
 	}
+	wrappers, wrapperRows := analyseWrappers(files, flag)
 	ifaceSet := map[string]bool{}
 	for _, m := range interfaceMethods(parsePkg("pkg/engine/interfaces"), "Engine") {
 		ifaceSet[m] = true
@@ -242,8 +244,54 @@ func analyseFacade() []apiRow {
 				nilCmp[b.X] = true
 				nilCmp[b.Y] = true
 			}
+			// a field handed to a guarded wrapper literal does not escape
+			if cl, ok := n.(*ast.CompositeLit); ok {
+				if id, ok := cl.Type.(*ast.Ident); ok && wrappers[id.Name] {
+					for _, el := range cl.Elts {
+						if kv, ok := el.(*ast.KeyValueExpr); ok {
+							nilCmp[kv.Value] = true
+						} else {
+							nilCmp[el] = true
+						}
+					}
+				}
+			}
 			return true
 		})
+		// does every return statement return a guarded wrapper literal?
+		fi.returnsWrapper = true
+		nret := 0
+		ast.Inspect(fd.Body, func(n ast.Node) bool {
+			if r, ok := n.(*ast.ReturnStmt); ok {
+				nret++
+				good := len(r.Results) == 1
+				if good {
+					e := r.Results[0]
+					if u, ok := e.(*ast.UnaryExpr); ok && u.Op == token.AND {
+						e = u.X
+					}
+					cl, ok := e.(*ast.CompositeLit)
+					id, ok2 := (ast.Expr)(nil), false
+					if ok {
+						var idn *ast.Ident
+						idn, ok2 = cl.Type.(*ast.Ident)
+						if ok2 {
+							id = idn
+							ok2 = wrappers[idn.Name]
+						}
+					}
+					_ = id
+					good = ok && ok2
+				}
+				if !good {
+					fi.returnsWrapper = false
+				}
+			}
+			return true
+		})
+		if nret == 0 {
+			fi.returnsWrapper = false
+		}
 		ast.Inspect(fd.Body, func(n ast.Node) bool {
 			e, ok := n.(ast.Expr)
 			if !ok {
@@ -340,7 +388,7 @@ func analyseFacade() []apiRow {
 		}
 		mut, beg, g := guardedOf(name, map[string]bool{})
 		leaks := fi.escapes
-		if fi.fd.Type.Results != nil && !beg {
+		if fi.fd.Type.Results != nil && !beg && !fi.returnsWrapper {
 			for _, r := range fi.fd.Type.Results.List {
 				t := strings.TrimPrefix(exprStr(r.Type), "*")
 				for _, c := range capabilityTypes {
@@ -353,8 +401,132 @@ func analyseFacade() []apiRow {
 		rows = append(rows, apiRow{api: "Facade", name: name, iface: ifaceSet[name], writes: mut, beginsRW: beg,
 			guarded: g, internal: strings.HasSuffix(name, "Internal"), leaks: leaks, setsFlag: fi.setsFlag})
 	}
+	rows = append(rows, wrapperRows...)
 	sort.Slice(rows, func(i, j int) bool { return rows[i].name < rows[j].name })
 	return rows
+}
+
+// guarded wrappers: struct types of pkg/engine that hold a *EngineFacade and a transaction
+// manager, and whose BeginTransaction forces read-only from the facade's flag before delegating.
+// Returns the wrapper type names that qualify (every method delegating a begin is guarded) and
+// one table row per begin-delegating method, named "<Type>.<Method>".
+func analyseWrappers(files []*ast.File, flag string) (map[string]bool, []apiRow) {
+	ok := map[string]bool{}
+	var rows []apiRow
+	for _, f := range files {
+		for _, d := range f.Decls {
+			gd, isG := d.(*ast.GenDecl)
+			if !isG {
+				continue
+			}
+			for _, sp := range gd.Specs {
+				ts, isT := sp.(*ast.TypeSpec)
+				if !isT || ts.Name.Name == "EngineFacade" {
+					continue
+				}
+				st, isS := ts.Type.(*ast.StructType)
+				if !isS {
+					continue
+				}
+				engF, mgrF := "", ""
+				for _, fl := range st.Fields.List {
+					t := exprStr(fl.Type)
+					names := []string{}
+					for _, nm := range fl.Names {
+						names = append(names, nm.Name)
+					}
+					if len(names) == 0 { // embedded: the field is named after the type
+						names = []string{t[strings.LastIndexAny(t, ".*")+1:]}
+					}
+					if t == "*EngineFacade" {
+						engF = names[0]
+					}
+					if strings.HasSuffix(t, "transaction.Manager") || strings.HasSuffix(t, "TransactionManager") {
+						mgrF = names[0]
+					}
+				}
+				if engF == "" || mgrF == "" {
+					continue
+				}
+				allGuarded := true
+				hasBegin := false
+				for name, fd := range methodsOf(files, ts.Name.Name) {
+					recv := recvName(fd)
+					forced := map[string]bool{}
+					guardSeen := false
+					begins, guarded := false, true
+					isFlagLoad := func(e ast.Expr) bool { // <recv>.<engF>.<flag>.Load()
+						c, ok := e.(*ast.CallExpr)
+						if !ok {
+							return false
+						}
+						s, ok := c.Fun.(*ast.SelectorExpr)
+						if !ok || s.Sel.Name != "Load" {
+							return false
+						}
+						s2, ok := s.X.(*ast.SelectorExpr)
+						if !ok || s2.Sel.Name != flag || flag == "" {
+							return false
+						}
+						f, ok := fieldSel(s2.X, recv)
+						return ok && f == engF
+					}
+					for _, stt := range fd.Body.List {
+						if ifs, ok := stt.(*ast.IfStmt); ok && ifs.Init == nil && ifs.Else == nil && isFlagLoad(ifs.Cond) && len(ifs.Body.List) > 0 {
+							if _, ok := ifs.Body.List[len(ifs.Body.List)-1].(*ast.ReturnStmt); ok {
+								guardSeen = true
+								continue
+							}
+							if as, ok := ifs.Body.List[0].(*ast.AssignStmt); ok && len(ifs.Body.List) == 1 && as.Tok == token.ASSIGN && len(as.Lhs) == 1 && len(as.Rhs) == 1 && isTrueLit(as.Rhs[0]) {
+								if id, ok := as.Lhs[0].(*ast.Ident); ok {
+									forced[id.Name] = true
+									continue
+								}
+							}
+						}
+						ast.Inspect(stt, func(n ast.Node) bool {
+							c, ok := n.(*ast.CallExpr)
+							if !ok {
+								return true
+							}
+							s, ok := c.Fun.(*ast.SelectorExpr)
+							if !ok || s.Sel.Name != "BeginTransaction" {
+								return true
+							}
+							if f, ok := fieldSel(s.X, recv); ok && f == mgrF {
+								if len(c.Args) == 1 && isTrueLit(c.Args[0]) {
+									return true
+								}
+								begins = true
+								a := ""
+								if len(c.Args) == 1 {
+									if id, ok := c.Args[0].(*ast.Ident); ok {
+										a = id.Name
+									}
+								}
+								if !guardSeen && !(a != "" && forced[a]) {
+									guarded = false
+								}
+							}
+							return true
+						})
+					}
+					if begins {
+						hasBegin = true
+						rows = append(rows, apiRow{api: "Facade", name: ts.Name.Name + "." + name, beginsRW: true, guarded: guarded})
+						if !guarded {
+							allGuarded = false
+						}
+					}
+				}
+				// the embedded manager's own BeginTransaction must be overridden
+				if hasBegin && allGuarded && methodsOf(files, ts.Name.Name)["BeginTransaction"] != nil {
+					ok[ts.Name.Name] = true
+				}
+			}
+		}
+	}
+	return ok, rows
 }
 
 // sinksOfCall classifies <recv>.<field>.<method>(...) (shared by the direct scan above)
@@ -602,6 +774,10 @@ func genApi() (string, string) {
                  storage or transaction-manager field, or has a result of a capability type;
                  Service: uses the engine field other than as call receiver, type-assertion
                  operand or argument of registry.Begin
+                 (a field placed in the literal of a guarded wrapper type — a struct of pkg/engine
+                 holding the facade and the manager whose own BeginTransaction forces read-only
+                 from the facade's flag before delegating — is not a leak; the wrapper's begin
+                 methods are rows named <Type>.<Method>)
      a_setsflag  stores to the read-only flag
      a_engine_calls  Service: methods invoked on the engine field (direct, through an ad-hoc
                  interface assertion, or BeginTransaction through registry.Begin)
